@@ -391,3 +391,78 @@ func (s *Sliced) ExtOIDs() []string {
 	}
 	return r
 }
+
+// ---------------------------------------------------------------------------- issuer/subject relation cases
+
+// RelCase: how the issuer name relates to the subject name, whether the certificate is signed by
+// its own key, and the key type (NameRels / RelCases of Issuance.tla).
+type RelCase struct {
+	Rel string `json:"rel"`
+	Own bool   `json:"own"`
+	Key string `json:"key"`
+}
+
+type relAVA struct {
+	oid string
+	tag int // 19 PrintableString, 12 UTF8String
+	val string
+}
+
+// relName encodes an RDNSequence with full control over string types, RDN order and the order of
+// the values inside a multi-valued RDN (hand-assembled TLVs: DER SET ordering is not enforced).
+func relName(rdns [][]relAVA) []byte {
+	var seq []byte
+	for _, rdn := range rdns {
+		var set []byte
+		for _, a := range rdn {
+			oid := must(stdasn1.Marshal(stdasn1.ObjectIdentifier(ParseOID(a.oid))))
+			val := tlv(byte(a.tag), []byte(a.val))
+			set = append(set, tlv(0x30, append(oid, val...))...)
+		}
+		seq = append(seq, tlv(0x31, set)...)
+	}
+	return tlv(0x30, seq)
+}
+
+// RelNames returns the raw subject and the raw issuer of a relation case.
+func RelNames(rel string) (subject, issuer []byte, err error) {
+	c := []relAVA{{"2.5.4.6", 19, "US"}}
+	o := []relAVA{{"2.5.4.10", 19, "Org A"}, {"2.5.4.10", 19, "Org B"}}
+	cn := []relAVA{{"2.5.4.3", 19, "Self Signed Variant"}}
+	subject = relName([][]relAVA{c, o, cn})
+	switch rel {
+	case "identical":
+		issuer = subject
+	case "string-type":
+		issuer = relName([][]relAVA{c, o, {{"2.5.4.3", 12, "Self Signed Variant"}}})
+	case "rdn-order":
+		issuer = relName([][]relAVA{cn, o, c})
+	case "set-order":
+		issuer = relName([][]relAVA{c, {o[1], o[0]}, cn})
+	case "case":
+		issuer = relName([][]relAVA{c, o, {{"2.5.4.3", 19, "self signed variant"}}})
+	case "trailing-space":
+		issuer = relName([][]relAVA{c, o, {{"2.5.4.3", 19, "Self Signed Variant "}}})
+	case "one-attribute":
+		issuer = relName([][]relAVA{c, {o[0], {"2.5.4.10", 19, "Org C"}}, cn})
+	default:
+		return nil, nil, fmt.Errorf("unknown name relation %q", rel)
+	}
+	return
+}
+
+// BuildRelCert creates the certificate of a relation case with the standard library.
+func BuildRelCert(c RelCase) ([]byte, error) {
+	subj, issuer, err := RelNames(c.Rel)
+	if err != nil {
+		return nil, err
+	}
+	k := KeyFor("subj", c.Key)
+	signer := k
+	if !c.Own {
+		signer = KeyFor("other", c.Key)
+	}
+	t := &stdx509.Certificate{SerialNumber: big.NewInt(77), RawSubject: subj, NotBefore: T2000.AddDate(20, 0, 0), NotAfter: T2000.AddDate(21, 0, 0)}
+	p := &stdx509.Certificate{RawSubject: issuer}
+	return stdx509.CreateCertificate(rand.Reader, t, p, k.StdPub, signer.StdPriv)
+}
